@@ -25,7 +25,7 @@ use std::sync::{Arc, Mutex};
 use std::time::Duration;
 
 #[derive(Clone, Default)]
-struct Capture(Arc<Mutex<Vec<ServiceInstallCtx>>>);
+struct Capture(Arc<Mutex<Vec<ServiceInstallCtx>>>, Option<usize>, Arc<AtomicUsize>);
 
 impl ServiceControl for Capture {
     fn create_service_user(&self, _u: &str) -> SvcResult<()> {
@@ -35,6 +35,11 @@ impl ServiceControl for Capture {
         Ok(45001)
     }
     fn install(&self, ctx: ServiceInstallCtx, _user_mode: bool) -> SvcResult<()> {
+        // the k-th install of this capture can be made to fail (a generic failure of the service manager)
+        let k = self.2.fetch_add(1, Ordering::Relaxed);
+        if self.1 == Some(k) {
+            return Err(SvcError::Io(std::io::Error::new(std::io::ErrorKind::Other, format!("injected: install #{k} failed"))));
+        }
         self.0.lock().unwrap().push(ctx);
         Ok(())
     }
@@ -455,6 +460,107 @@ fn one_config(run: &Run, bin: &Path, choice: &[usize], evm: usize, auto_restart_
     let _ = std::fs::remove_dir_all(&dir);
 }
 
+
+/// Several services from one `add` (count 2 / 3), the k-th install failing or none, then what the next
+/// `antctl upgrade` invocation does: load the registry from disk, take the environment from it, upgrade every
+/// recorded service. Each service's regenerated definition must be the one it was installed with.
+fn multi_service_history(run: &Run, bin: &Path, choice: &[usize], evm: usize, count: u16, fail_at: Option<usize>, auto_restart_expr: &str) {
+    let dir = mc_core::scratch_root().join(format!("c20-{}", SEQ.fetch_add(1, Ordering::Relaxed)));
+    std::fs::create_dir_all(&dir).unwrap();
+    std::fs::write(dir.join("antnode"), b"#!/bin/sh\n").unwrap();
+    std::fs::write(dir.join("antnode-new"), b"#!/bin/sh\n#new\n").unwrap();
+    let (mut opts, _) = build_options(choice, evm, &dir);
+    let nondefault: Vec<String> = OPTS.iter().zip(choice.iter()).filter(|(_, c)| **c != 0).map(|(o, c)| format!("{}={c}", o.0)).collect();
+    let desc = json!({"non_default_options": nondefault, "evm": (["arbitrum-one", "arbitrum-sepolia", "custom"][evm]), "count": count, "failing_install": fail_at});
+    if !cli_accepts(&opts.peers_args) || (opts.peers_args.first && count > 1) {
+        let _ = std::fs::remove_dir_all(&dir);
+        return;
+    }
+    opts.count = Some(count);
+    let widen = |p: &mut Option<PortRange>| {
+        if let Some(PortRange::Single(a)) = p {
+            *p = Some(PortRange::Range(*a, *a + count - 1));
+        }
+    };
+    widen(&mut opts.node_port);
+    widen(&mut opts.metrics_port);
+    widen(&mut opts.rpc_port);
+    run.case(desc.to_string().as_bytes(), true);
+    let rt = tokio::runtime::Builder::new_current_thread().enable_time().build().unwrap();
+    let cap = Capture(Default::default(), fail_at, Default::default());
+    let reg_path = dir.join("registry.json");
+    let mut reg = NodeRegistry::load(&reg_path).expect("registry");
+    let r = rt.block_on(async { add_node(opts, &mut reg, &cap, VerbosityLevel::Minimal).await });
+    match (&r, fail_at) {
+        (Err(e), None) => {
+            run.violation("install-succeeds", "add_node/several", format!("add_node failed for an installable configuration: {e} ({desc})"), desc);
+            let _ = std::fs::remove_dir_all(&dir);
+            return;
+        }
+        // the command line saves the registry after a successful add only
+        (Ok(_), _) => reg.save().expect("save"),
+        _ => {}
+    }
+    drop(reg);
+    run.outcome(format!("add:{}", r.is_ok()).as_bytes());
+    // the next invocation
+    let mut reg = match NodeRegistry::load(&reg_path) {
+        Ok(r) => r,
+        Err(e) => {
+            run.violation("upgrade-keeps-settings", "several/registry-does-not-load", format!("{e} ({desc})"), desc);
+            let _ = std::fs::remove_dir_all(&dir);
+            return;
+        }
+    };
+    let installed: Vec<ServiceInstallCtx> = cap.0.lock().unwrap().clone();
+    let env_variables = reg.environment_variables.clone();
+    for i in 0..reg.nodes.len() {
+        let name = reg.nodes[i].service_name.clone();
+        let Some(install_ctx) = installed.iter().find(|c| c.label.to_string() == name).cloned() else {
+            continue; // recorded without a definition: C19's business
+        };
+        let auto_restart = match auto_restart_expr {
+            "false" => false,
+            "true" => true,
+            _ => reg.nodes[i].auto_restart,
+        };
+        {
+            let node = &mut reg.nodes[i];
+            let svc = NodeService::new(node, Box::new(NoRpc));
+            let mut mgr = ServiceManager::new(svc, Box::new(cap.clone()), VerbosityLevel::Minimal);
+            let r = rt.block_on(async {
+                mgr.upgrade(UpgradeOptions { auto_restart, env_variables: env_variables.clone(), force: true, start_service: false, target_bin_path: dir.join("antnode-new"), target_version: semver::Version::new(0, 2, 0) }).await
+            });
+            if let Err(e) = r {
+                run.violation("upgrade-succeeds", "several/upgrade", format!("upgrade of {name} failed: {e:?} ({desc})"), desc.clone());
+                continue;
+            }
+        }
+        let upgrade_ctx = cap.0.lock().unwrap().last().unwrap().clone();
+        run.count("services_upgraded_after_a_multi_service_add", 1);
+        let mut differ = |what: &str, a: String, b: String| {
+            if a != b {
+                run.violation("upgrade-keeps-settings", &format!("several/{what}"), format!("{name}: {what} {a} at installation, {b} after an upgrade by the next invocation ({desc})"), desc.clone());
+            }
+        };
+        differ("label", install_ctx.label.to_string(), upgrade_ctx.label.to_string());
+        differ("program", format!("{:?}", install_ctx.program), format!("{:?}", upgrade_ctx.program));
+        differ("user", format!("{:?}", install_ctx.username), format!("{:?}", upgrade_ctx.username));
+        differ("autostart", install_ctx.autostart.to_string(), upgrade_ctx.autostart.to_string());
+        differ("environment", format!("{:?}", install_ctx.environment), format!("{:?}", upgrade_ctx.environment));
+        differ("working-directory", format!("{:?}", install_ctx.working_directory), format!("{:?}", upgrade_ctx.working_directory));
+        let (c1, dump1, err1) = run_antnode(bin, &install_ctx.args, &install_ctx.environment);
+        let (c2, dump2, err2) = run_antnode(bin, &upgrade_ctx.args, &upgrade_ctx.environment);
+        if c1 != Some(0) || c2 != Some(0) {
+            run.violation("antnode-accepts-arguments", "several", format!("{name}: antnode exits {c1:?} {err1} / {c2:?} {err2} ({desc})"), desc.clone());
+        } else if dump1 != dump2 {
+            let diff: Vec<String> = dump1.lines().zip(dump2.lines()).filter(|(a, b)| a != b).map(|(a, b)| format!("{} -> {}", a.trim(), b.trim())).take(4).collect();
+            run.violation("upgrade-keeps-settings", "several/arguments", format!("{name}: the node understands the upgraded definition differently: {diff:?} ({desc})"), desc.clone());
+        }
+    }
+    let _ = std::fs::remove_dir_all(&dir);
+}
+
 pub fn main(tier: Option<&str>) {
     let run = Run::new("C20", "exploration", tier);
     let d = run.pick(3, 4);
@@ -463,7 +569,9 @@ pub fn main(tier: Option<&str>) {
          owner, home-network, upnp, user mode, service account, env vars (none / foreign ones / ones the node reads: ANT_PEERS, ANT_LOG), network id, auto-restart) x EVM network {{arbitrum-one, sepolia, custom}}: every \
          configuration with at most {d} options away from their defaults (each alternative value), plus all-on; configurations that antctl's \
          own PeersArgs parser rejects are skipped. Each: real add_node + real ServiceManager::upgrade against a capturing ServiceControl, both \
-         argument lists run, with the definition's environment, through the antnode binary built from this tree. Non-trivial = at least one option non-default."
+         argument lists run, with the definition's environment, through the antnode binary built from this tree. Non-trivial = at least one option non-default. \
+         Then histories: one add of 2..3 (thorough 4) services with every single option away from its default, no install or the k-th failing, the registry loaded from disk as the next \
+         invocation does, every recorded service upgraded with the environment the registry records: each regenerated definition must equal the one that service was installed with."
     ));
     run.assume("the full product (about 1.4e7 installs) is out of budget: the enumeration is bounded by the number of non-default options");
     match current_user() {
@@ -521,6 +629,39 @@ pub fn main(tier: Option<&str>) {
             });
         }
     });
+    // several services from one add, with a failing install, upgraded by the next invocation
+    {
+        let mut vectors: Vec<Vec<usize>> = vec![];
+        rec(0, 1, &mut vec![], &mut vectors);
+        vectors.push(OPTS.iter().map(|o| if ["first", "local"].contains(&o.0) { 0 } else { 1 }).collect());
+        vectors.push(OPTS.iter().map(|o| if ["first", "contacts"].contains(&o.0) { 0 } else { o.1 - 1 }).collect());
+        let mut cases: Vec<(usize, usize, u16, Option<usize>)> = vec![];
+        let counts: &[u16] = if d >= 4 { &[2, 3, 4] } else { &[2, 3] };
+        for v in 0..vectors.len() {
+            for evm in [0usize, 2] {
+                for &n in counts {
+                    cases.push((v, evm, n, None));
+                    for k in 0..n as usize {
+                        cases.push((v, evm, n, Some(k)));
+                    }
+                }
+            }
+        }
+        run.extra("multi_service_histories", json!({"option_vectors": vectors.len(), "counts": counts, "failing_install": "none or each", "cases": cases.len()}));
+        let next = AtomicUsize::new(0);
+        std::thread::scope(|sc| {
+            for _ in 0..mc_core::workers() {
+                sc.spawn(|| loop {
+                    let i = next.fetch_add(1, Ordering::Relaxed);
+                    if i >= cases.len() {
+                        break;
+                    }
+                    let (v, evm, n, f) = cases[i];
+                    multi_service_history(&run, &bin, &vectors[v], evm, n, f, &expr);
+                });
+            }
+        });
+    }
     run.sample(json!({"non_default_options": ["node_port=1", "owner=2"], "evm": "custom"}));
     run.sample(json!({"non_default_options": ["auto_restart=1"], "evm": "arbitrum-one"}));
     run.finish();
